@@ -37,14 +37,82 @@ Proof.
   rewrite range_len_ceil in * by assumption. split; [reflexivity|]. unfold RANGE_LIMIT in EL. lia.
 Qed.
 
+(* ---- the bound symbol of the Sum (ForLoopPulseTemplate._sum_index) ---- *)
+Definition mxl : list (var * expr) -> N :=
+  fix mx (l : list (var * expr)) : N := match l with [] => 0%N | (_, e') :: r => N.max (maxvar e') (mx r) end.
+Lemma maxvar_ELet bs body : maxvar (ELet bs body) = N.max (mxl bs) (maxvar body).
+Proof. reflexivity. Qed.
+Lemma mxl_cons y e' r : mxl ((y, e') :: r) = N.max (maxvar e') (mxl r).
+Proof. reflexivity. Qed.
+
+(* a name that occurs free is at most the largest name written *)
+Lemma fvb_le_maxvar x : forall e, fvb x e = true -> (x <= maxvar e)%N.
+Proof.
+  induction e using expr_ind'; intros Hx.
+  - discriminate.
+  - cbn [fvb maxvar] in *. apply N.eqb_eq in Hx. subst. lia.
+  - cbn [fvb maxvar] in *. apply orb_prop in Hx as [Hx|Hx]; [apply IHe1 in Hx|apply IHe2 in Hx]; lia.
+  - cbn [fvb maxvar] in *. apply orb_prop in Hx as [Hx|Hx]; [apply IHe1 in Hx|apply IHe2 in Hx]; lia.
+  - cbn [fvb maxvar] in *. apply orb_prop in Hx as [Hx|Hx]; [apply IHe1 in Hx|apply IHe2 in Hx]; lia.
+  - cbn [fvb maxvar] in *. apply orb_prop in Hx as [Hx|Hx]; [apply IHe1 in Hx|apply IHe2 in Hx]; lia.
+  - cbn [fvb maxvar] in *. apply IHe in Hx. lia.
+  - cbn [fvb maxvar] in *. apply orb_prop in Hx as [Hx|Hx]; [apply IHe1 in Hx|apply IHe2 in Hx]; lia.
+  - cbn [fvb maxvar] in *. apply IHe in Hx. lia.
+  - cbn [fvb maxvar] in *. apply IHe in Hx. lia.
+  - cbn [fvb maxvar] in *. apply orb_prop in Hx as [Hx|Hx]; [apply orb_prop in Hx as [Hx|Hx]|].
+    + apply IHe1 in Hx. lia.
+    + apply IHe2 in Hx. lia.
+    + apply andb_prop in Hx as (_ & Hx). apply IHe3 in Hx. lia.
+  - cbn [fvb maxvar] in *. apply orb_prop in Hx as [Hx|Hx]; [apply orb_prop in Hx as [Hx|Hx]; [apply orb_prop in Hx as [Hx|Hx]|]|].
+    + apply IHe1 in Hx. lia.
+    + apply IHe2 in Hx. lia.
+    + apply IHe3 in Hx. lia.
+    + apply IHe4 in Hx. lia.
+  - rewrite fvb_ELet in Hx. rewrite maxvar_ELet. apply orb_prop in Hx as [Hx|Hx].
+    + assert (x <= mxl bs)%N; [|lia]. clear IHe. induction bs as [|[y e'] r IHr]; [discriminate|].
+      rewrite anyfv_cons in Hx. rewrite mxl_cons. inversion H as [|? ? He HF]; subst. cbn [snd] in He.
+      apply orb_prop in Hx as [Hx|Hx]; [apply He in Hx; lia|]. specialize (IHr HF Hx). lia.
+    + apply andb_prop in Hx as (_ & Hx). apply IHe in Hx. lia.
+Qed.
+
+(* what the proofs need of the bound symbol j: the range does not mention it, and it is the loop index or a name the
+   summand does not mention *)
+Lemma sum_index_ok i start stop step e :
+  fvb (sum_index i start stop step e) start = false /\ fvb (sum_index i start stop step e) step = false /\
+  (sum_index i start stop step e = i \/ fvb (sum_index i start stop step e) e = false).
+Proof.
+  unfold sum_index. destruct (fvb i start || fvb i stop || fvb i step) eqn:E.
+  - set (j := N.succ _).
+    assert (Hfr : forall x, (maxvar x < j)%N -> fvb j x = false).
+    { intros x Hx. destruct (fvb j x) eqn:F; [apply fvb_le_maxvar in F; lia|reflexivity]. }
+    repeat split; [apply Hfr; subst j; lia|apply Hfr; subst j; lia|right; apply Hfr; subst j; lia].
+  - apply orb_false_elim in E as (E & E3). apply orb_false_elim in E as (E1 & _). auto.
+Qed.
+
+(* one term of the Sum: the summand with the index replaced by start + j*step, j bound to k, is the summand at the
+   k-th element of the range *)
+Lemma loop_term rho i j start step e k qa qs a s :
+  fvb j start = false -> fvb j step = false -> (j = i \/ fvb j e = false) ->
+  eval rho start = Some qa -> eval rho step = Some qs -> qa == inject_Z a -> qs == inject_Z s ->
+  oq_rel (eval (env_upd rho j (Some (inject_Z k))) (ELet [(i, EAdd start (EMul (EV j) step))] e))
+         (eval (env_upd rho i (Some (inject_Z (a + k * s)))) e).
+Proof.
+  intros Fa Fs Fe Ea Es Hqa Hqs. rewrite eval_ELet, let_env_cons. cbn [eval].
+  rewrite (eval_indep j start) by exact Fa. rewrite (eval_indep j step) by exact Fs.
+  rewrite Ea, Es, env_upd_same. cbn [omap2].
+  apply eval_rel. intros y Hy. unfold let_env, env_upd. destruct (N.eqb y i) eqn:Eyi.
+  - simpl. rewrite Hqa, Hqs, inject_Z_plus, inject_Z_mult. reflexivity.
+  - destruct (N.eqb y j) eqn:Eyj; [|apply oq_rel_refl].
+    exfalso. apply N.eqb_eq in Eyj. subst y. destruct Fe as [Fe|Fe]; [subst j; rewrite N.eqb_refl in Eyi; discriminate|congruence].
+Qed.
+
 Theorem for_closed_form rho i start stop step e a o s ks v :
   as_int (eval rho start) = Some a -> as_int (eval rho stop) = Some o -> as_int (eval rho step) = Some s ->
-  fvb i start = false -> fvb i step = false ->
   py_range a o s = Some ks ->
   eval rho (EIfLe (loop_count start stop step) e0 e0 (loop_sum i start stop step e)) = Some v ->
   exists w, sum_list (fun k => eval (env_upd rho i (Some (inject_Z k))) e) ks = Some w /\ v == w.
 Proof.
-  intros Aa Ao As Fa Fs Hr Hev.
+  intros Aa Ao As Hr Hev.
   pose proof (as_int_val _ _ _ Aa) as Ha. pose proof (as_int_val _ _ _ Ao) as Ho. pose proof (as_int_val _ _ _ As) as Hs.
   destruct (py_range_spec _ _ _ _ Hr) as (Hne & _ & _).
   pose proof (eval_loop_count rho start stop step a o s Ha Ho Hs Hne) as Ec.
@@ -56,7 +124,9 @@ Proof.
   - assert (Hk0 : ks = []) by (rewrite Hks; replace (Z.max 0 cnt) with 0%Z by lia; reflexivity).
     subst ks. rewrite Hk0. inversion Hev; subst. exists 0. split; reflexivity.
   - assert (Hpos : (0 < cnt)%Z) by lia.
-    unfold loop_sum in Hev. cbn [eval] in Hev. rewrite Ec in Hev.
+    unfold loop_sum in Hev. destruct (sum_index_ok i start stop step e) as (Fa & Fs & Fe).
+    set (j := sum_index i start stop step e) in *.
+    cbn [eval] in Hev. rewrite Ec in Hev.
     change (eval rho e0) with (Some 0) in Hev. change (eval rho e1) with (Some 1) in Hev. cbn [omap2] in Hev.
     assert (Hh : Qmax (inject_Z cnt) 1 - 1 == inject_Z (cnt - 1)).
     { unfold Qmax. pose proof (Qle_bool_inject_Z cnt 1) as Hb1. change (inject_Z 1) with 1 in Hb1. rewrite Hb1.
@@ -72,18 +142,88 @@ Proof.
     replace (Z.max 0 cnt) with cnt in Hks by lia.
     destruct Ha as (qa & Ea & Hqa). destruct Hs as (qs & Es & Hqs).
     pose proof (sum_from_list
-      (fun k => eval (env_upd rho i (Some (inject_Z k))) (ELet [(i, EAdd start (EMul (EV i) step))] e))
+      (fun k => eval (env_upd rho j (Some (inject_Z k))) (ELet [(i, EAdd start (EMul (EV j) step))] e))
       (fun k => eval (env_upd rho i (Some (inject_Z k))) e) a s (Z.to_nat cnt) 0%Z) as HS.
     replace (a + 0 * s)%Z with a in HS by ring. rewrite <- Hks in HS.
-    assert (Hterm : forall k, oq_rel
-              (eval (env_upd rho i (Some (inject_Z k))) (ELet [(i, EAdd start (EMul (EV i) step))] e))
-              (eval (env_upd rho i (Some (inject_Z (a + k * s)))) e)).
-    { intros k. rewrite eval_ELet. rewrite let_env_cons. cbn [eval]. rewrite (eval_indep i start) by exact Fa. rewrite (eval_indep i step) by exact Fs.
-      rewrite Ea, Es, env_upd_same. cbn [omap2].
-      apply eval_env_rel. intros y. unfold let_env, env_upd. destruct (N.eqb y i); [|apply oq_rel_refl].
-      simpl. rewrite Hqa, Hqs, inject_Z_plus, inject_Z_mult. reflexivity. }
-    specialize (HS Hterm).
+    specialize (HS (fun k => loop_term rho i j start step e k qa qs a s Fa Fs Fe Ea Es Hqa Hqs)).
     destruct (oq_rel_some_l _ _ _ Hev HS) as (w & Ew & Hw). exists w. split; assumption.
+Qed.
+
+(* ---- ForLoopPT.integral / ForLoopPT.duration, definedness direction: if the summand has the value f k whenever the
+   index is bound to the element k of the range, the closed form evaluates, to the sum of f over the range.  Round 6: no
+   side condition on the range any more (it may mention the loop index's own name) ---- *)
+Theorem for_sum_correct rho i start stop step e a o s ks (f : Z -> Q) :
+  int_val rho start a -> int_val rho stop o -> int_val rho step s ->
+  py_range a o s = Some ks ->
+  body_rule rho i e ks f ->
+  ev_eq rho (EIfLe (loop_count start stop step) e0 e0 (loop_sum i start stop step e)) (sumZ f ks).
+Proof.
+  intros Ha Ho Hs Hr Hbody.
+  destruct (py_range_spec _ _ _ _ Hr) as (Hne & Hlen & _).
+  pose proof (eval_loop_count rho start stop step a o s Ha Ho Hs Hne) as Ec.
+  set (cnt := Qceil (inject_Z (o - a) / inject_Z s)) in *.
+  rewrite range_len_ceil in Hlen by assumption. fold cnt in Hlen.
+  unfold ev_eq. cbn [eval]. rewrite Ec. change (eval rho e0) with (Some 0).
+  cbv iota beta. pose proof (Qle_bool_inject_Z cnt 0) as Hb0. change (inject_Z 0) with 0 in Hb0. rewrite Hb0.
+  destruct (cnt <=? 0)%Z eqn:Ele.
+  - assert (ks = []) by (destruct ks; [reflexivity|simpl in Hlen; lia]). subst ks.
+    exists 0. split; reflexivity.
+  - assert (Hpos : (0 < cnt)%Z) by lia.
+    unfold loop_sum. destruct (sum_index_ok i start stop step e) as (Fa & Fs & Fe).
+    set (j := sum_index i start stop step e) in *.
+    cbn [eval]. rewrite Ec. change (eval rho e0) with (Some 0). change (eval rho e1) with (Some 1).
+    cbn [omap2].
+    assert (Hh : Qmax (inject_Z cnt) 1 - 1 == inject_Z (cnt - 1)).
+    { unfold Qmax. pose proof (Qle_bool_inject_Z cnt 1) as Hb1. change (inject_Z 1) with 1 in Hb1. rewrite Hb1. destruct (cnt <=? 1)%Z eqn:E1.
+      - assert (Hc1 : cnt = 1%Z) by lia. rewrite Hc1. reflexivity.
+      - rewrite inject_Z_minus. reflexivity. }
+    destruct (is_int_of_eq _ _ Hh) as (Hi & Hf).
+    assert (H0i : is_int 0 = true) by reflexivity.
+    rewrite H0i, Hi. cbn [andb]. rewrite Hf. change (Qfloor 0) with 0%Z.
+    replace (cnt - 1 - 0 + 1)%Z with cnt by ring.
+    assert (Hlim : ((cnt <? 0) || (SUM_LIMIT <? cnt))%Z%bool = false).
+    { unfold py_range in Hr. destruct (s =? 0)%Z; [discriminate|].
+      destruct (RANGE_LIMIT <? range_len a o s)%Z eqn:EL; [discriminate|].
+      rewrite range_len_ceil in EL by assumption. fold cnt in EL. unfold SUM_LIMIT, RANGE_LIMIT in *. lia. }
+    rewrite Hlim.
+    assert (Hks : ks = range_from a s (Z.to_nat cnt)).
+    { unfold py_range in Hr. destruct (s =? 0)%Z; [discriminate|].
+      destruct (RANGE_LIMIT <? range_len a o s)%Z; [discriminate|]. inversion Hr.
+      rewrite range_len_ceil by assumption. fold cnt. f_equal. lia. }
+    pose proof (sum_from_range
+      (fun k => eval (env_upd rho j (Some (inject_Z k))) (ELet [(i, EAdd start (EMul (EV j) step))] e)) f a s (Z.to_nat cnt) 0%Z) as HS.
+    replace (a + 0 * s)%Z with a in HS by ring. rewrite <- Hks in HS. apply HS.
+    intros k Hk.
+    destruct Ha as (qa & Ea & Hqa). destruct Hs as (qs & Es & Hqs).
+    pose proof (loop_term rho i j start step e k qa qs a s Fa Fs Fe Ea Es Hqa Hqs) as HT.
+    destruct (Hbody (a + k * s)%Z (inject_Z (a + k * s)) (env_upd rho i (Some (inject_Z (a + k * s))))) as (w & Ew & Hw).
+    + rewrite Hks. replace k with (Z.of_nat (Z.to_nat k)) by lia. apply range_from_In. lia.
+    + reflexivity.
+    + intros x Hx. apply env_upd_other. exact Hx.
+    + apply env_upd_same.
+    + destruct (oq_rel_some_r _ _ _ Ew HT) as (v' & Ev' & Hv'). exists v'. split; [exact Ev'|]. rewrite Hv'. exact Hw.
+Qed.
+
+(* ROUND 6: a loop whose range names its own index is inside the theorems' domain and the theorems are not vacuous
+   there.  ForLoopPT(ConstantPT('1+i', {A: 'i'}), 'i', ('i', 'i+2')) at i = 3 (the witness of repair 7d773a1): wf, two
+   pieces (durations 4 and 5), the symbolic duration evaluates to 9 and the integral of channel 1 to 3*4 + 4*5 = 32; the
+   Sum bound over the loop index itself (the pre-repair code) captures the parameter and evaluates to 4. *)
+Lemma range_names_index_witness :
+  let p := For 1%N (EV 1%N) (EAdd (EV 1%N) (EC 2)) (EC 1) (Const (EAdd (EC 1) (EV 1%N)) [(1%N, EV 1%N)]) in
+  let rho := env_upd env_empty 1%N (Some 3) in
+  let capturing := ESum 1%N e0 (ESub (EMax (loop_count (EV 1%N) (EAdd (EV 1%N) (EC 2)) (EC 1)) e1) e1)
+                        (ELet [(1%N, EAdd (EV 1%N) (EMul (EV 1%N) (EC 1)))] (EAdd (EC 1) (EV 1%N))) in
+  exists pcs d e x,
+    wf p = true /\ fvb 1%N (EV 1%N) = true /\ denote p rho = Some pcs /\ length pcs = 2%nat /\
+    eval rho (duration_expr p) = Some d /\ d == 9 /\ total pcs == 9 /\
+    dget 1%N (integral_expr p) = Some e /\ eval rho e = Some x /\ x == 32 /\
+    eval rho capturing = Some 4.
+Proof.
+  cbv zeta. eexists. eexists. eexists. eexists.
+  split; [vm_compute; reflexivity|]. split; [vm_compute; reflexivity|]. split; [vm_compute; reflexivity|].
+  split; [vm_compute; reflexivity|]. split; [vm_compute; reflexivity|]. split; [vm_compute; reflexivity|].
+  split; [vm_compute; reflexivity|]. split; [vm_compute; reflexivity|]. split; [vm_compute; reflexivity|].
+  split; vm_compute; reflexivity.
 Qed.
 
 (* the index substituted by initial_values (start) / final_values (floor form) *)
